@@ -9,8 +9,10 @@ from d42.declaration import DeclarationError
 from d42.declaration.types import ListSchema, Schema
 
 MODULE = "D42.Props.C10"
-THEOREMS = []
-FILES = ["D42/Model/Data.lean", "D42/Model/Validate.lean", "D42/Model/Decl.lean", "D42/Gen/Guards.lean", "D42/Props/C10.lean"]
+THEOREMS = ["decl_error_kind", "decl_run_error_kind", "redeclare_rejected", "ok_means_unguarded", "fresh_selfConsistent",
+            "decl_preserves_selfConsistent", "selfConsistent_nan_counterexample",
+            "D42.Gen.Guards.writes_guarded", "D42.Gen.Guards.conflict_symmetric", "D42.Gen.Guards.value_blocks_nothing"]
+FILES = ["D42/Model/Data.lean", "D42/Model/Validate.lean", "D42/Model/Decl.lean", "D42/Gen/Guards.lean", "D42/Spec/Conforms.lean", "D42/Props/C02.lean", "D42/Props/C10.lean"]
 
 EVIDENCE = dict(
     level="proof",
